@@ -21,6 +21,7 @@ EXPLANATION = ("The recursive layers (translate, compile_, execute_) are out of 
                "operator-name -> opcode table.")
 ASSUMPTIONS = [
     "interpreter arms are verified as wrapped functions (R-arm): the arm's statements are the repository's, the dispatch `match instr` and the surrounding loop are not under contract; `alloc(..)` is assumed to build a data value whose fields are the given slice in order",
+    "short-circuit blocks: Compiler::compile on the operands is ASSUMED to append code only, leave one value on the static stack and keep functions below 2^30 instructions; a ghost log records the tail flag it is called with",
     "binop_*'s mapping of None to Error::Message(\"Arithmetic overflow\") needs a live Thread and is not under contract",
     "MultiplyInt: reference is i64::checked_mul of core (64x64 multiplier equivalence against a 128-bit product is intractable for SAT); MultiplyByte is checked against the 16-bit product",
     "DivideInt: reference is the language's truncating `/` on i64 where defined (a 128-bit divider is intractable for SAT); DivideByte is checked against the 32-bit quotient",
@@ -173,6 +174,8 @@ def obligations(tier):
     ]
     obs += [
         v("compiler", "Instruction::adjust", "adjust(i) == documented stack effect of i (operands <= i32::MAX)", "vm/src/types.rs::Instruction::adjust"),
+        v("compiler", "compile_primitive::and", "`a && b`: a is compiled out of tail position, b inherits the tail position; code layout [a, CJump(L+3), False, Jump(end), b]: b runs only if a is True, otherwise the result is False", "vm/src/compiler.rs::compile_primitive (&& block)"),
+        v("compiler", "compile_primitive::or", "`a || b`: a out of tail position, b inherits it; layout [a, CJump(T), b, Jump(end), T: True]: a True a skips b and yields True", "vm/src/compiler.rs::compile_primitive (|| block)"),
         v("compiler", "ProgramCounter::new", "establishes index < len and last == Return", "vm/src/thread.rs::ProgramCounter::new"),
         v("compiler", "ProgramCounter::instruction", "the unchecked fetch is in bounds under the invariant", "vm/src/thread.rs::ProgramCounter::instruction"),
         v("compiler", "ProgramCounter::step", "stepping past a non-Return instruction keeps the invariant", "vm/src/thread.rs::ProgramCounter::step"),
